@@ -126,12 +126,15 @@ def plan(tier, seed):
     for _ in range(150 if tier == "quick" else 1500):
         # a flagged nested DAG that hands a defaulted parameter straight back, in every return shape
         progs.append(pg.gen_program(rng, nsites=rng.randint(1, 3), nparams=rng.randint(1, 3), max_depth=rng.choice([1, 2]), focus="flagged-sub"))
+    for _ in range(100 if tier == "quick" else 1000):
+        # a nested DAG called with an INDEXED result for a parameter that its body indexes again
+        progs.append(pg.gen_program(rng, nsites=rng.randint(0, 2), nparams=rng.randint(0, 2), max_depth=rng.choice([1, 2]), focus="indexed-arg-sub"))
     jobs = []
     for i, P in enumerate(progs):
         givens = [pg.gen_args(P, rng) for _ in range(3 if tier == "quick" else 4)]
         if P["params"] and rng.random() < 0.5:
             # explicit values for every parameter first, then a call that relies on the defaults
-            full = givens[0] + [rng.choice(pg.INT_VALUES) if P["ptypes"][p] == "int" else rng.choice(pg.FLAG_VALUES) for p in range(len(givens[0]), len(P["params"]))]
+            full = givens[0] + [pg.value_for(P["ptypes"][p], rng) for p in range(len(givens[0]), len(P["params"]))]
             required = sum(1 for p in P["params"] if not p["has"])
             givens = [full, full[:required]] + givens[1:]
         if rng.random() < 0.05 and P["params"]:
@@ -269,7 +272,7 @@ def run(tier, seed, log=common.say):
     return res
 
 
-NONTRIVIAL = {"C01": "ineq", "C10": "flagged", "C20": "nested", "C17": "async", "C03": "ineq"}
+NONTRIVIAL = {"C01": "ineq", "C10": "flagged", "C20": "nested", "C17": "async", "C03": "ineq", "C02": "indexed"}
 
 
 def report(prop, res):
@@ -305,7 +308,7 @@ def report(prop, res):
                    "indexing, unpack_to, operators (also reflected), and_/or_/not_, re-used functions, all return shapes, nested DAGs to depth 3, activation "
                    "flags of every form. Non-trivial: inside the equivalence (the plain body does not raise)"
                    + {"C01": "", "C10": " and the program carries an activation flag", "C20": " and the program calls a nested DAG",
-                      "C17": " and run as AsyncDAG", "C03": ""}[prop],
+                      "C17": " and run as AsyncDAG", "C03": "", "C02": " and some value is used through an index path"}[prop],
            "samples": res["samples"], "exhaustive": False, "programs": res["programs"], "counts": res["counts"],
            "model_run": {k: res["model"][k] for k in ("cases", "states", "transitions", "ok")},
            "violation_counts": {k: n for k, n in res["viol_counts"].items() if k.startswith(prop)},
